@@ -200,8 +200,9 @@ def problems(env, cfg, tier):
         out.update(obs_clauses(env, s2, o, "C12.", ok=ok))
         out["C12.observation_is_a_view"] = K.all_(o.step_count == s2.step_count, o.action_mask == s2.action_mask)
         out.update(K.spec_bounds(obs_spec, o, "C01.step_obs_bounds"))
-        # the declared spec is DiscreteArray(time_limit): with the symbolic limit T the bound is 0 <= step_count < T
-        out["C01.step_obs_bounds.step_count"] = (o.step_count >= 0) & (o.step_count < T)
+        # the declared range, read from the REAL observation_spec as a function of the symbolic limit T
+        lo_, hi_ = K.declared_time_bounds(env, "step_count", T)
+        out["C01.step_obs_bounds.step_count"] = (o.step_count >= lo_) & (o.step_count <= hi_)
         return out
 
     step = dict(title=f"Snake.step@{cfg}", args=(T0, state, a), requires=req, ensures=ens, targets=targets, workers=4)
